@@ -256,6 +256,55 @@ func genC14(r *rng, tier string, res *Result) {
 	res.Samples = append(res.Samples, []byte(`"60-160 calls keeping every returned slice; then overwrite all, Compact, delete all, Compact, Close; all kept slices compared with private copies under SetPanicOnFault"`))
 }
 
+// c15LargeGarbage: production-size thresholds (defaults: 4 GiB segments, 32 MiB minimum, threshold
+// 0.5). One key with a 1 MiB value overwritten 48 times: about 50 MB in one segment, 98% dead.
+// Compact must reclaim it: afterwards the directory holds the live megabyte (plus at most one
+// minimum-size segment of slack).
+func c15LargeGarbage(r *rng, tier string, res *Result) {
+	rounds := scale(tier, 1, 3)
+	t := tfs.New()
+	db, err := pogreb.Open("big", &pogreb.Options{FileSystem: t})
+	if err != nil {
+		return
+	}
+	defer func() {
+		if db != nil {
+			_ = db.Close()
+		}
+	}()
+	val := r.bytes(1 << 20)
+	dirSize := func() int64 {
+		var n int64
+		for _, nm := range t.List("big") {
+			d, _ := t.ReadFile("big/" + nm)
+			n += int64(len(d))
+		}
+		return n
+	}
+	for round := 0; round < rounds; round++ {
+		for i := 0; i < 48; i++ {
+			val[0] = byte(i)
+			if err := db.Put([]byte("the-key"), val); err != nil {
+				return
+			}
+		}
+		before := dirSize()
+		cr, err := db.Compact()
+		after := dirSize()
+		res.Tags["large_garbage_compactions"]++
+		bound := int64(32<<20) + 2*(1<<20) + (1 << 20)
+		if err != nil || after > bound {
+			res.Findings = append(res.Findings, &Finding{Kind: "spec", Case: "C15/large-garbage", Step: round,
+				Cmd:      "default thresholds; 48 x Put(the-key, 1 MiB); Compact",
+				Impl:     []string{fmt.Sprintf("directory %d bytes before, %d bytes after Compact (result %+v, err %v) for 1 MiB of live data", before, after, cr, err)},
+				Expected: []string{fmt.Sprintf("at most %d bytes: the segment is 98%% dead and above the minimum size", bound)},
+				Program:  []string{"open (default options)", "48 x put the-key <1 MiB>", "compact"}})
+			return
+		}
+		_ = db.Sync()
+	}
+}
+
 // c14Race returns the text of a fault / panic observed in a reader, or "".
 func c14Race(r *rng, dir string, withCompact bool) string {
 	o := &pogreb.Options{FileSystem: fs.OSMMap}
